@@ -56,6 +56,10 @@ STATEMENTS = [
     'raise ValueError from KeyError()', 'raise module.ValueError()', 'raise (ValueError())', 'raise ValueError(*arguments)',
     'raise ImportError(name=value_name)', 'raise ValueError(**keyword_arguments)', 'raise ValueError() from KeyError(key=value_name)',
     'result = 1 + 2', 'result = 10 * 10 * 10',
+    # `pass` in front of a string statement: without it the string would be the docstring of the block's owner (F39)
+    'pass\n"a string after pass"', 'pass\npass\n"a string after two passes"\nvalue_after = 1', 'pass\nb"bytes after pass"', 'pass\n42\n"later string"',
+    # annotations without a value on targets that are not names: nothing is evaluated but the object (and the index)
+    'holder.attribute: int', 'holder[0]: int', 'holder.attribute.deeper: "Text"', 'holder[first_index][second_index]: int',
 ]
 
 FUNCTION_STATEMENTS = [
